@@ -142,12 +142,13 @@ type c15step struct {
 }
 
 func TestVerif_C15_Delivery(t *testing.T) {
+	c15rigSkipForReplay(t)
 	r := kit.Start(t, "C15")
 	defer r.Finish()
 	r.Rule("subscriber populations (13 systematic: same filter with QoS patterns 01/10/11/00/011/101/01011, cross-client overlapping filters with +/#, one client with overlapping filters of different QoS; then seeded random: 2-5 clients x 1-2 filters from a 12-filter alphabet, one QoS per client) x 4 fresh broker instances per population with shuffled connect/SUBSCRIBE order (insertion order of the subscriber maps) x 5 rounds x every (topic, QoS 0/1) injected through httpTopicsPublishHandler in bursts of 1-8; each (population,message) is therefore repeated >= 20 times because the visiting order is a Go map iteration; distinct = (class, per-client (minQ,maxQ) pattern for the topic, message QoS, set of eligible clients that received it)")
 	r.Assume("filters are well-formed, topics contain no '$' and no wildcard; bursts stay far below the 50-packet write queue so a QoS0 drop is never legitimate; clients acknowledge QoS1 immediately in this part; delivery to clients whose subscription QoS is below the message QoS is counted but not judged (the property sentence only says who MUST receive)")
 	sys := c15sysPops()
-	nPops := r.N(60, 1500)
+	nPops := r.N(60, 3000)
 	const orders, rounds = 4, 5
 	for i := 0; i < nPops; i++ {
 		if !r.Mine(i) {
@@ -413,11 +414,12 @@ type c15lane struct {
 }
 
 func TestVerif_C15_Retransmit(t *testing.T) {
+	c15rigSkipForReplay(t)
 	r := kit.Start(t, "C15")
 	defer r.Finish()
 	r.Rule("per case one broker and 6 concurrent lanes; a lane = own topic, a primary QoS1 subscriber whose PUBACKs the harness controls (1-3 messages + a pacer message, acked in order after 1-3 retransmissions, optionally preceded by a PUBACK for a foreign id, optionally sent twice), optionally a second subscriber that acks at once and a third that never acks; checks: same packet id/topic/payload on every copy, >=1 spontaneous retransmission while unacked, no copy after PUBACK+PINGRESP while the next message is seen retransmitted >= 4 times (last message: 6 harness ticks), never-acking subscriber keeps being served; distinct = (messages, ack delays, foreign-ack flags, population of the lane)")
 	r.Assume("only the oldest unacknowledged message of a session is retransmitted (head of line), so retransmission of message i is demanded only once messages < i are acknowledged")
-	n := r.N(8, 160)
+	n := r.N(8, 400)
 	const lanes = 6
 	for i := 0; i < n; i++ {
 		if !r.Mine(i) {
@@ -696,6 +698,7 @@ type c15out struct {
 }
 
 func TestVerif_C15_ClientPublish(t *testing.T) {
+	c15rigSkipForReplay(t)
 	r := kit.Start(t, "C15")
 	defer r.Finish()
 	r.Rule("3 raw clients publish 12-40 packets each concurrently and back to back (QoS0/QoS1 mix, unique payloads, some packets re-sent with the same id and DUP), then PINGREQ/PINGRESP; without limiter: recording pipeline calls per packet == packets sent, PUBACKs per id == QoS1 packets sent with that id, nothing else acknowledged; with a clientPublishLimit: for every QoS1 id #PUBACK == #pipeline calls <= #sent; distinct = (limiter, qos, dup, outcome)")
